@@ -4,6 +4,8 @@
 -/
 import Gts.Lemmas.Reverse
 import Gts.Lemmas.Table
+import Gts.Model.SeqNuc
+import Gts.Props.C18
 namespace Gts.C05
 open Gts Loc
 
@@ -99,6 +101,51 @@ theorem revcomp_den_partial (l : Loc) (L : Int) (hw : wf l = true) (hk2 : revers
 /-- non-vacuity: an odd-arity complement-strand join satisfies the hypotheses -/
 example : wf (compl (joined [ranged 0 2 true false, ranged 4 6 false false, ranged 8 10 false true])) = true ∧
     reverseAbs (compl (joined [ranged 0 2 true false, ranged 4 6 false false, ranged 8 10 false true])) 12 = false := by
+  decide
+
+/-! ### sequence level: `gts.Complement` and `gts.Reverse(gts.Complement(·))` -/
+
+/-- `Location.Complement` flips the strand of everything a location denotes — for EVERY
+location, a wrapped one (`complement(x)` ↦ `x`) as well as an unwrapped one of any kind
+(ranges, points, `a.b` ambiguous spans, joins, orders) -/
+theorem den_complement (l : Loc) : den (complement l) = flipDen (den l) := by
+  cases l <;> simp [complement, den, flipDen_flipDen]
+
+/-- **`gts.Complement` on a record** never panics, complements every residue through the table,
+and passes EVERY feature location (whatever its kind) through `Location.Complement`, keeping
+keys, qualifiers and table order. -/
+theorem seq_complement_total (s : Seq) :
+    s.complementRec = some ⟨s.feats.map fun f => { f with loc := f.loc.complement },
+                         s.bytes.map Nuc.complementByte⟩ := by
+  simp [Seq.complementRec, C18.complement_bytewise]
+
+/-- the reverse-complemented record: residues complemented and flipped, no feature lost or
+duplicated, every feature re-located by `Complement` then `Reverse(len)` -/
+theorem seq_revcomp (s : Seq) :
+    ∃ r, s.revcompRec = some r ∧ r.bytes = (s.bytes.map Nuc.complementByte).reverse ∧
+      r.feats.Perm (s.feats.map fun f => { f with loc := (f.loc.complement).reverse s.len }) := by
+  refine ⟨(⟨s.feats.map fun f => { f with loc := f.loc.complement },
+      s.bytes.map Nuc.complementByte⟩ : Seq).reverse, by simp [Seq.revcompRec, seq_complement_total], rfl, ?_⟩
+  have h := reverse_table_perm
+    ⟨s.feats.map fun f => { f with loc := f.loc.complement }, s.bytes.map Nuc.complementByte⟩
+  simpa [Seq.len, Function.comp_def] using h
+
+/-- **every feature of the reverse-complemented record denotes what it denoted before**: the
+location `reverse (complement l) L` reads position `L-1-x` on the opposite strand wherever `l`
+read `x`, in the same order (K2 guard on the complemented location). -/
+theorem seq_revcomp_den_partial (l : Loc) (L : Int) (hw : wf (complement l) = true)
+    (hk2 : reverseAbs (complement l) L = false) :
+    den (reverse (complement l) L) ≼ (den l).map (fun p => (L - 1 - p.1, !p.2)) := by
+  have h := reverse_den_partial (complement l) L hw hk2
+  rw [den_complement] at h
+  have e : mirrorDen L (flipDen (den l)) = (den l).map (fun p => (L - 1 - p.1, !p.2)) := by
+    simp [flipDen, mirrorDen, mapPos, mirrorMap, List.map_reverse, Function.comp_def]
+  rwa [e] at h
+
+/-- non-vacuity: a top-level ambiguous span and a complemented join meet the hypotheses -/
+example : wf (complement (ambiguous 5 9)) = true ∧ reverseAbs (complement (ambiguous 5 9)) 16 = false ∧
+    wf (complement (compl (joined [ranged 0 2 true false, ranged 4 6 false false]))) = true ∧
+    reverseAbs (complement (compl (joined [ranged 0 2 true false, ranged 4 6 false false]))) 12 = false := by
   decide
 
 end Gts.C05
